@@ -3,7 +3,7 @@
 # patch.diff to /repo's working tree, run the quick checks of the properties named in caught_by, require that every
 # caught_by key is reported, revert. Seeds that no longer break the property after a repair are listed in BENIGN below.
 cd /verif
-BENIGN="C10-3 C09-4 C03-8 C17-7 C09-8 C10-9 C01-6 C03-5"   # harmless after fixes 3622e70d4 / 05ecc6a78 / 0f6fe9b3a (twice) / 50bb3c2cd (twice) / 9bc1afe84 / bafefc293 (see their meta.json)
+BENIGN="C10-3 C09-4 C03-8 C17-7 C09-8 C10-9 C01-6 C03-5 C08-1"   # harmless after fixes 3622e70d4 / 05ecc6a78 / 0f6fe9b3a (twice) / 50bb3c2cd (twice) / 9bc1afe84 / bafefc293 (see their meta.json) ; C08-1 since 31db46e4f (a crc frame is refused before it is decoded)
 if [ -n "$(git -C /repo status --porcelain)" ]; then echo "/repo working tree not clean"; exit 2; fi
 ids=${@:-$(ls seeded | sort -V)}
 rc=0
